@@ -327,6 +327,10 @@ class Builtins:
     def is_mutable_root(self, o, st) -> bool:
         if isinstance(o, VVal) and (o.fresh or str(o.term) in self.mutable_terms):
             return True
+        # state owned by a mutable receiver: self.<attr> of a method that may mutate self
+        if isinstance(o, VVal) and z3.is_app(o.term) and o.term.num_args() == 1 and o.term.decl().name().startswith('fld_') \
+                and str(o.term.arg(0)) in self.mutable_terms:
+            return True
         return False
 
     def concat_list(self, cur, src, st):
